@@ -123,6 +123,8 @@ Structured(d) ==
 (* payload sets for the .cfg files (lengths 0,1,3,4 over {0,1}) *)
 PayQuick == { <<>>, <<1>>, <<1,0,1>>, <<0,0,1>>, <<1,0,1,1>>, <<1,0,0,0>> }
 PayAll   == { <<>> } \cup [1..1 -> {0,1}] \cup [1..3 -> {0,1}] \cup [1..4 -> {0,1}]
+Pay3     == { <<>>, <<1>>, <<1,0,1>>, <<1,0,1,1>> }
+Pay2f    == { <<>>, <<1,0,1>> }
 PayF8q   == { <<>>, <<1,0,1>>, <<1,1,1,1>>, <<1,0,1,0>> }
 PayF8    == { <<>>, <<1,0,1>>, <<1,1,1>>, <<1,0,1,0>>, <<0,0,1,1>> }
 
